@@ -85,6 +85,57 @@ fn check_variant(run: &Run, acc: &mut Acc, sp: &Spelling, dev: &[(usize, usize)]
     true
 }
 
+/// spellings of one number at magnitudes where integer and float representations part ways
+fn number_magnitudes(acc: &mut Acc) {
+    let groups: Vec<(Vec<&str>, Value)> = vec![
+        (vec!["1e15", "1E15", "1.0e15", "1000000000000000.0", "1000000000000000", "10e14", "0.1e16"], json!([1000000000000000i64, 1e15, 999999999999999i64, 1000000000000001i64, "1e15"])),
+        (vec!["9007199254740991", "9007199254740991.0", "9.007199254740991e15", "9007199254740991e0"], json!([9007199254740991i64, 9007199254740991.0, 9007199254740990i64, 9007199254740992u64])),
+        (vec!["1e19", "1.0e19", "10000000000000000000.0", "1E+19", "10e18", "0.1e20"], json!([1e19, 10000000000000000000u64, 9223372036854775807i64, 9223372036854775808u64, 1.0000000000000002e19, "1e19"])),
+        (vec!["-1e19", "-1.0e19", "-10000000000000000000.0", "-1E+19"], json!([-1e19, -9223372036854775808i64, -9223372036854775807i64, -1.0000000000000002e19])),
+        (vec!["1e22", "1.0e22", "10000000000000000000000.0", "10e21"], json!([1e22, 1e21, 1.0000000000000002e22])),
+        (vec!["1e-7", "1.0e-7", "0.0000001", "10e-8", "0.1E-6"], json!([1e-7, 1e-8, 0, 1.0000000000000002e-7])),
+        (vec!["0.5", "5e-1", "0.50", "50e-2", "0.05E1"], json!([0.5, 0, 1, "0.5"])),
+        (vec!["0", "0.0", "-0", "-0.0", "0e0", "0E-5", "-0e9"], json!([0, 0.0, -0.0, 1e-300, false, null, ""])),
+    ];
+    for (spellings, doc) in &groups {
+        let am = AddrMap::new(doc);
+        for op in ["==", "!=", "<", "<=", ">", ">="] {
+            let canon = format!("$[?@{}{}]", op, spellings[0]);
+            let base = ids_only(&imp::run_with_path(&canon, doc, &am));
+            let canon_l = format!("$[?{}{}@]", spellings[0], op);
+            let base_l = ids_only(&imp::run_with_path(&canon_l, doc, &am));
+            for s in &spellings[1..] {
+                for (q, b, c) in [(format!("$[?@{}{}]", op, s), &base, &canon), (format!("$[?{}{}@]", s, op), &base_l, &canon_l)] {
+                    acc.evals += 1;
+                    let r = ids_only(&imp::run_with_path(&q, doc, &am));
+                    if &r != b {
+                        acc.viol(
+                            format!("{:?} and {:?} spell the same number but on {} give {:?} and {:?}", c, q, doc, b, r),
+                            json!({"kind": "spelling", "class": "number spellings (magnitudes)", "canonical": c, "variant": q, "doc": doc}),
+                        );
+                    } else {
+                        acc.nontrivial += 1;
+                    }
+                }
+            }
+            // literal against literal: every pair of spellings is the same number
+            for s in &spellings[1..] {
+                let q = format!("$[?{}{}{}]", spellings[0], op, s);
+                let want = matches!(op, "==" | "<=" | ">=");
+                acc.evals += 1;
+                let r = ids_only(&imp::run_with_path(&q, doc, &am));
+                let n = doc.as_array().map(|a| a.len()).unwrap_or(0);
+                if r.as_ref().map(|v| v.len()) != Ok(if want { n } else { 0 }) {
+                    acc.viol(
+                        format!("{} compares two spellings of one number: it must keep {} children of {}, got {:?}", q, if want { "all" } else { "no" }, doc, r),
+                        json!({"kind": "spelling", "class": "number spellings (literal vs literal)", "canonical": format!("$[?{}{}{}]", spellings[0], op, spellings[0]), "variant": q, "doc": doc}),
+                    );
+                }
+            }
+        }
+    }
+}
+
 fn number_family(acc: &mut Acc) {
     let spellings = ["100", "1e2", "1E2", "1e+2", "1.0e2", "100.0", "10e1", "1000e-1", "100.00", "0.1e3", "1E+2", "100e0", "100e-0"];
     let doc = json!([100, 100.0, "100", 99, 100.5, 1e2, -100, [100], {"a": 100}, null]);
@@ -258,6 +309,7 @@ pub fn run(tier: &str) -> i32 {
         .reduce(Acc::new, Acc::merge);
     let mut acc = acc;
     number_family(&mut acc);
+    number_magnitudes(&mut acc);
     significant_blanks(&mut acc);
     if acc.extra.get("MACHINERY_invalid_spelling").copied().unwrap_or(0) > 0 {
         eprintln!("MACHINERY: the spelling generator produced strings the RFC recogniser rejects:");
